@@ -19,6 +19,8 @@
 package c07
 
 import (
+	"reflect"
+	"unsafe"
 	"bytes"
 	"fmt"
 	"runtime"
@@ -53,6 +55,9 @@ type CaseA struct {
 	Layer  string   `json:"layer"`
 	Ops    []OpA    `json:"ops"`
 	Faults []FaultA `json:"faults"`
+	// Start: sequence number at which all four queues of the established session continue
+	// (0 = as established); lets the real client and the real server handler cross the 16-bit wrap
+	Start uint16 `json:"start,omitempty"`
 }
 
 func (c CaseA) String() string {
@@ -72,7 +77,11 @@ func (c CaseA) String() string {
 			f = append(f, fmt.Sprintf("%s@step%d+%d", world.Fate(x.Fate), x.Step, x.K))
 		}
 	}
-	return fmt.Sprintf("A ops=[%s] faults=[%s]", strings.Join(o, " "), strings.Join(f, " "))
+	st := ""
+	if c.Start != 0 {
+		st = fmt.Sprintf(" start=%d", c.Start)
+	}
+	return fmt.Sprintf("A ops=[%s] faults=[%s]%s", strings.Join(o, " "), strings.Join(f, " "), st)
 }
 
 // side collects what one end of the tunnel read and the results of its writes.
@@ -205,6 +214,43 @@ func executeA(t *testing.T, c CaseA) (kind, detail string) {
 		if err != nil {
 			kind, detail = "setup", err.Error()
 			return
+		}
+		if c.Start != 0 {
+			// the session is established and idle (the poller sleeps): continue all four queues at
+			// Start, in the state a session is in that has carried Start packets each way - next
+			// sequence number Start, acknowledgement memories holding the 128 numbers before it (the
+			// "nothing received yet" acknowledgement 65535 of a new session has long expired by then;
+			// the long runs below reach the wrap without this shortcut)
+			bubble.Wait()
+			sv := reflect.ValueOf(srv)
+			if sv.Kind() != reflect.Ptr || !sv.Elem().FieldByName("in").IsValid() || !sv.Elem().FieldByName("out").IsValid() {
+				kind, detail = "setup", fmt.Sprintf("server connection %T has no in/out queues", srv)
+				return
+			}
+			cin, cout := cl.VerifQueues()
+			sin := (*util.InQueue)(unsafe.Pointer(sv.Elem().FieldByName("in").UnsafeAddr()))
+			sout := (*util.OutQueue)(unsafe.Pointer(sv.Elem().FieldByName("out").UnsafeAddr()))
+			var recent []uint16
+			for i := util.MaxCachedChunks; i >= 1; i-- {
+				recent = append(recent, c.Start-uint16(i))
+			}
+			for _, q := range []interface{}{cin, cout, sin, sout} {
+				f := reflect.ValueOf(q).Elem().FieldByName("acked")
+				if !f.IsValid() {
+					kind, detail = "setup", "queue without an acknowledgement memory"
+					return
+				}
+				*(*[]uint16)(unsafe.Pointer(f.UnsafeAddr())) = append([]uint16{}, recent...)
+			}
+			cin.VerifSetNext(c.Start)
+			cout.VerifSetNext(c.Start)
+			sin.VerifSetNext(c.Start)
+			sout.VerifSetNext(c.Start)
+			// queries of the old epoch are not "old queries" of this one; a few idle polls give the
+			// replay fates genuine recent queries to replay
+			dg.ForgetHistory()
+			bubble.Advance(5 * time.Second)
+			bubble.Wait()
 		}
 		cs, ss := &side{}, &side{}
 		go cs.reader(cl)
@@ -669,6 +715,23 @@ func casesA(thorough bool, f int) []CaseA {
 	for n := 1; n <= 2*f+2; n++ {
 		out = append(out, CaseA{Layer: "A", Ops: []OpA{{"cw", n}}}, CaseA{Layer: "A", Ops: []OpA{{"sw", n}}})
 	}
+	// the real client and the real server handler across the 16-bit wrap: every script from the
+	// three last sequence numbers, loss-free and with every single fault at the first exchanges
+	for _, st := range []uint16{65533, 65534, 65535} {
+		for _, s := range scripts {
+			out = append(out, CaseA{Layer: "A", Ops: s, Start: st})
+			if len(s) > 2 {
+				continue
+			}
+			for step := range s {
+				for k := 0; k < 2; k++ {
+					for fate := 1; fate < int(world.NumFates); fate++ {
+						out = append(out, CaseA{Layer: "A", Ops: s, Start: st, Faults: []FaultA{{Step: step, K: k, Fate: fate}}})
+					}
+				}
+			}
+		}
+	}
 	for _, s := range scripts {
 		out = append(out, CaseA{Layer: "A", Ops: s})
 		// outages: the path loses every query / answer for several consecutive exchanges, enough to
@@ -740,6 +803,15 @@ func TestCheck(t *testing.T) {
 		}
 		r.DecodeReplay(&probe)
 		switch probe.Layer {
+		case "A-long":
+			var c CaseALong
+			r.DecodeReplay(&c)
+			k, d := executeALong(t, c)
+			r.Eval(1)
+			r.Transition(c.Packets)
+			if k != "" {
+				r.Fail("A|"+k, fmt.Sprintf("%s: %s", c, d), 1, c)
+			}
 		case "A-close":
 			var c CaseClose
 			r.DecodeReplay(&c)
@@ -781,6 +853,22 @@ func TestCheck(t *testing.T) {
 		return
 	}
 	idx := 0
+	// Layer A-long: real traffic across the wrap, each direction
+	for _, dir := range []string{"down", "up"} {
+		if r.Mine(idx) {
+			c := CaseALong{Layer: "A-long", Dir: dir, Packets: 65836}
+			var k, d string
+			r.Guard(idx, 900*time.Second, "hang|A-long", c.String(), c, func() { k, d = executeALong(t, c) })
+			r.Eval(1)
+			r.Transition(c.Packets)
+			r.State(mc.Hash("A-long", dir, k))
+			r.Nontrivial(mc.Hash(c.String()))
+			if k != "" {
+				r.Fail("A|"+k, fmt.Sprintf("%s: %s", c, d), 1, c)
+			}
+		}
+		idx++
+	}
 	// Layer B (i): all sequences up to the depth, from several starting sequence numbers
 	depth := 5
 	if r.Thorough() {
